@@ -192,6 +192,15 @@ def build_pool():
     add('incbytes-nocwd', None, files={MAIN_FILE: "include_bytes blob.bin\n", 'blob.bin': {'hex': '0102'}},
         path=MAIN_FILE)
 
+    # one search-path list shared by all these calls (a caller that builds its -i list once); each program has its own util.asm
+    for tag, val in (('A', 1), ('B', 2)):
+        add('share-' + tag, None, files={MAIN_FILE: "include util.asm\ninclude common.asm\naddi t0 zero U\naddi t1 zero COMMON\n",
+                                         'util.asm': "U = {}\n".format(val)}, path=MAIN_FILE, shared_dirs='S')
+    add('share-fail', None, files={MAIN_FILE: "include util.asm\naddi t0 zero 5000\n", 'util.asm': "U = 3\n"},
+        path=MAIN_FILE, shared_dirs='S')
+    add('share-sub', None, files={MAIN_FILE: "include sub/inner.asm\naddi t0 zero U\n", 'sub/inner.asm': "include util.asm\n",
+                                  'sub/util.asm': "U = 4\n", 'util.asm': "U = 5\n"}, path=MAIN_FILE, shared_dirs='S')
+
     # assignment expressions inside eval(): the store goes to the per-call constants (first map of the ChainMap), never
     # to the module-level REGISTERS table -- later calls must still see the real registers
     add('walrus-const', "X = (zero := 7)\naddi t0 zero X\naddi t1 zero 1\n")
@@ -219,6 +228,7 @@ FORCED_PAIRS = [
     ('many-labels', 'many-labels-c'), ('incbytes', 'incbytes-nocwd'),
     ('walrus-const', 'regs-use'), ('walrus-const-given', 'regs-use'), ('walrus-imm', 'regs-use'),
     ('walrus-imm', 'regs-use-c'), ('walrus-const', 'X-use'),
+    ('share-A', 'share-B'), ('share-fail', 'share-B'), ('share-sub', 'share-A'), ('share-A', 'share-sub'),
 ]
 
 # programs preferred in the bounded hash-seed runs (many names / sets / aliases / compression)
@@ -256,6 +266,14 @@ class Materialiser:
         self.root = os.path.abspath(root)
         os.makedirs(self.root, exist_ok=True)
         self.dirs = {}
+        self.shared = {}        # tag -> the ONE include_dirs list object every call with that tag is handed
+
+    def shared_list(self, tag):
+        if tag not in self.shared:
+            d = os.path.join(self.root, 'shared_' + tag)
+            write_files(d, {'common.asm': "COMMON = 77\n"})
+            self.shared[tag] = ([d], [d])       # (the list handed to the calls, its contents as created)
+        return self.shared[tag]
 
     def dir_for(self, spec):
         k = _key(spec)
@@ -310,6 +328,11 @@ def call_spec(asm, spec, mat):
         arg = spec['source']
     if spec.get('include_dirs') is not None:
         kwargs['include_dirs'] = [os.path.join(d, x) for x in spec['include_dirs']]
+    shared = None
+    if spec.get('shared_dirs'):
+        # a caller that keeps ONE search-path list and hands it to every call
+        shared = mat.shared_list(spec['shared_dirs'])
+        kwargs['include_dirs'] = shared[0]
     old_cwd = None
     if spec.get('chdir'):
         old_cwd = os.getcwd()
@@ -325,6 +348,9 @@ def call_spec(asm, spec, mat):
             os.chdir(old_cwd)
     res['constants'] = _snap(consts)
     res['labels'] = _snap(labels)
+    if shared is not None:
+        # the search path is an input, not an output: the call must leave the caller's list as it was created
+        res['include_dirs_left_unchanged'] = (list(shared[0]) == list(shared[1]))
     return res, consts, labels
 
 
@@ -648,6 +674,11 @@ class Explorer:
             if results[k] != expected[k] and not self.full():
                 self.report_mismatch(hist, k, results[k], prior, seed)
                 break
+            if results[k].get('include_dirs_left_unchanged') is False and not self.full():
+                ctx.cex('assemble() changed the include_dirs list of its caller (call {} of the history)'.format(spec['name']),
+                        {'kind': 'caller-list', 'calls': hist[:k + 1], 'seed': seed}, 'list extended', 'list as the caller built it',
+                        {'kind': 'caller-list-changed'})
+                break
         for ch in changes:
             if self.full():
                 break
@@ -805,6 +836,9 @@ def replay(ctx, rec):
             k = inp.get('index', len(calls) - 1)
             results, _ = ses.worker(calls, inp.get('seed', 0))
             return results[k] != ses.fresh(calls[k])       # ses.fresh: the call alone in another new interpreter
+        if kind == 'caller-list':
+            results, _ = ses.worker(inp['calls'], inp.get('seed', 0))
+            return any(r.get('include_dirs_left_unchanged') is False for r in results)
         if kind == 'dict-changed':
             _, changes = ses.worker(inp['calls'], inp.get('seed', 0))
             return any(c['earlier'] == inp['earlier'] and c['later'] == inp['later'] for c in changes)
